@@ -453,11 +453,58 @@ func c19SealDenied(t *testing.T, out *vh.Out) {
 	}
 }
 
+// c19NsLast: a token of the ROOT namespace whose policy reaches into a child namespace spends its last use on a request
+// into that child namespace (the n-1 uses before it in either namespace). The token (whose entry and lease live in the
+// root namespace) must be revoked all the same. Op line: nslast <n> <k> => <class of the last request>|token:<state>
+// (k = how many of the earlier uses went into the child namespace)
+func c19NsLast(t *testing.T, out *vh.Out) {
+	for n := 1; n <= 3; n++ {
+		for k := 0; k < n; k += 2 {
+			_, c, root, _ := c19Setup(t)
+			if cl, _ := vhReq(c, logical.UpdateOperation, "sys/namespaces/c19ns", root, nil); cl != "ok" {
+				t.Fatalf("namespace: %s", cl)
+			}
+			if cl, _ := vhReq(c, logical.UpdateOperation, "sys/policies/acl/c19reach", root, map[string]any{"policy": `
+path "c19ns/*" { capabilities = ["read", "list"] }
+path "cubbyhole/*" { capabilities = ["read", "update", "create"] }`}); cl != "ok" {
+				t.Fatalf("policy: %s", cl)
+			}
+			tok := vhCreateToken(t, c, root, map[string]any{"ttl": "1h", "policies": []string{"c19reach"}, "num_uses": n})
+			salted := c19Salted(t, c, tok)
+			out.Reset()
+			for i := 0; i < n-1; i++ {
+				path := "cubbyhole/x"
+				if i < k {
+					path = "c19ns/sys/mounts"
+				}
+				if cl, _ := vhReq(c, logical.ReadOperation, path, tok, nil); cl != "ok" {
+					t.Fatalf("c19 nslast set-up use %d on %s: %s", i, path, cl)
+				}
+			}
+			cl, _ := vhReq(c, logical.ReadOperation, "c19ns/sys/mounts", tok, nil)
+			state := ""
+			for i := 0; i < 300; i++ { // the revocation is queued: the expiration worker deletes the entry
+				if state = c19TokenState(c, salted); state == "gone" {
+					break
+				}
+				time.Sleep(5 * time.Millisecond)
+			}
+			viol := ""
+			if state != "gone" {
+				viol = "!VIOL:token entry not revoked after its last use (a request into a child namespace): " + state + "#spent-token-not-revoked-after-child-namespace-use"
+			}
+			out.Op(fmt.Sprintf("%s|token:%s%s", cl, state, viol), "nslast", vh.I(int64(n)), vh.I(int64(k)))
+			_ = c.Shutdown()
+		}
+	}
+}
+
 func TestVerifC19(t *testing.T) {
 	out := vh.Open()
 	defer out.Close()
 	rng := vh.NewRand(vh.Seed())
 	c19SealDenied(t, out)
+	c19NsLast(t, out)
 	cases := vh.EnvInt("VERIF_C19_CASES", 150)
 	if vh.Thorough() {
 		cases = vh.EnvInt("VERIF_C19_CASES", 1500)
